@@ -229,20 +229,17 @@ Definition ok_entry (e : nat * opkind * result) : Prop := match e with (_, _, RO
 (* the helper results: no successful entry is logged, the instance table is untouched, the new pc is plain *)
 Definition quiet (g g' : gst) (l' : lst) : Prop :=
   insts g' = insts g /\
-  (forall e, In e (glog g') -> ok_entry e -> In e (glog g)) /\
+  (exists lnew, glog g' = glog g ++ lnew /\ (length lnew <= 1)%nat /\ forall e, In e lnew -> ~ ok_entry e) /\
   plain_pc (at_pc l').
-
-Lemma in_snoc_ok g e0 e : In e (glog g ++ [e0]) -> ok_entry e -> ~ ok_entry e0 -> In e (glog g).
-Proof. intros H O N. apply in_app_or in H. destruct H as [H|[H|[]]]; auto. subst. contradiction. Qed.
 
 Lemma op_done_quiet t g l r hs nr es g' l' es' :
   op_done t g l r hs nr es = Some (g', l', es') -> ~ ok_entry (t, cur_kind l, r) -> quiet g g' l'.
 Proof.
   unfold op_done, op_done_k. intros H N; inversion H; subst. split; [reflexivity|]. split; [|cbn; auto].
-  intros e Hin O. cbn [glog add_log] in Hin. eapply in_snoc_ok; eauto.
+  eexists. split; [reflexivity|]. split; [cbn; lia|]. intros e [<-|[]]. exact N.
 Qed.
 
-Ltac quiet_plain := split; [reflexivity|split; [auto|cbn; auto]].
+Ltac quiet_plain := split; [reflexivity|split; [exists []; split; [cbn; now rewrite app_nil_r|split; [cbn; lia|intros ? []]]|cbn; auto]].
 
 Lemma ooc_tail_quiet P t g l o es g' l' es' : ooc_tail P t g l o es = Some (g', l', es') -> quiet g g' l'.
 Proof.
@@ -385,4 +382,233 @@ Proof.
     intros i1 x Hi N. destruct (Nat.eq_dec i1 i) as [->|Hne]; [left; eauto|right].
     exists x. split; auto. unfold get_inst, add_log; cbn [insts]. fold (get_inst (set_inst g i (upd_dy i0 DFinal true)) i1).
     rewrite get_set_inst_other; auto.
+Qed.
+
+(* what a new successful entry looks like *)
+Definition new_ok (g' : gst) (t : nat) (l : lst) (e : nat * opkind * result) : Prop :=
+  (exists j c x', e = (t, KOpen, ROk j c) /\ get_inst g' j = Some x' /\ i_cfg x' = c /\ i_dy x' = DFinal) \/
+  (exists i own c x', e = (t, KCreate, ROk i c) /\ at_pc l = CDyChmod own i /\ get_inst g' i = Some x' /\ i_cfg x' = c /\ i_dy x' = DFinal).
+
+Definition new_entries (g g' : gst) (t : nat) (l : lst) : Prop :=
+  exists lnew, glog g' = glog g ++ lnew /\ (length lnew <= 1)%nat /\ forall e, In e lnew -> ok_entry e -> new_ok g' t l e.
+
+Lemma new_entries_none g g' t l : glog g' = glog g -> new_entries g g' t l.
+Proof. intros E. exists []. rewrite app_nil_r. split; auto. split; [cbn; lia|intros ? []]. Qed.
+
+Lemma new_entries_quiet g g0 g' t l l' : glog g0 = glog g -> quiet g0 g' l' -> new_entries g g' t l.
+Proof.
+  intros E (_ & (lnew & A & B & C) & _). exists lnew. rewrite <- E. split; auto. split; auto.
+  intros e Hin Hok. exfalso. exact (C e Hin Hok).
+Qed.
+
+Lemma step_new_entries P t g l g' l' es :
+  step P t g l = Some (g', l', es) -> LInv g t l -> new_entries g g' t l.
+Proof.
+  unfold step, with_inst. intros H HL.
+  destruct (at_pc l) eqn:Epc.
+  all: step_cases H.
+  all: try (inversion H; subst; apply new_entries_none; reflexivity).
+  all: try (quiet_of H; eapply new_entries_quiet; [|exact H]; reflexivity).
+  all: unfold call_succeeds, op_done_k in H; inversion H; subst; clear H;
+       eexists; (split; [cbn [glog add_log set_inst]; reflexivity|]); (split; [cbn; lia|]); intros e [<-|[]] _.
+  - (* OReg, node already registered *)
+    left. unfold LInv in HL. rewrite Epc in HL. destruct HL as (x & Hx & Hd).
+    exists j, (i_cfg i), x. repeat split; auto. congruence.
+  - (* OReg registers *)
+    left. unfold LInv in HL. rewrite Epc in HL. destruct HL as (x & Hx & Hd). assert (x = i) by congruence; subst.
+    eexists j, (i_cfg i), _. split; [reflexivity|]. split; [unfold get_inst, add_log; cbn [insts]; apply (get_set_inst_same g j _ i E)|].
+    cbn. auto.
+  - (* CDyChmod *)
+    right. eexists i, own, (i_cfg i0), _. split; [reflexivity|]. split; [exact Epc|].
+    split; [unfold get_inst, add_log; cbn [insts]; apply (get_set_inst_same g i _ i0 E)|]. cbn. auto.
+Qed.
+
+Lemma step_LInv_own P t g l g' l' es :
+  step P t g l = Some (g', l', es) -> LInv g t l -> LInv g' t l'.
+Proof.
+  unfold step, with_inst. intros H HL.
+  destruct (at_pc l) eqn:Epc.
+  all: step_cases H.
+  all: try (quiet_of H; destruct H as (_ & _ & Hp); apply plain_LInv; exact Hp).
+  all: try (unfold call_succeeds, op_done_k in H; inversion H; subst; apply plain_LInv; cbn; auto; fail).
+  all: try (inversion H; subst; apply plain_LInv; cbn; auto; fail).
+  all: inversion H; subst; clear H; unfold LInv in *; rewrite Epc in HL; cbn [at_pc set_pc creating] in *.
+  all: try (destruct HL as (x & Hx & Ho & Hd); assert (x = i0) by congruence; subst;
+            eexists; split; [eapply get_set_inst_same; eauto|]; unfold upd_st, upd_dy, upd_res, upd_reg; cbn;
+            repeat match goal with Ed : i_dy _ = _ |- _ => rewrite Ed end; split; auto; congruence).
+  all: try (destruct HL as (x & Hx & Ho & Hd); exists x; auto; fail).
+  (* ODyFstatPerm saw the final permissions *)
+  all: try (match goal with E : get_inst _ ?j = Some ?i |- final _ ?j => exists i; auto end; fail).
+  (* CStOpen *)
+  all: eexists; split; [unfold set_cur, get_inst; cbn [insts]; apply get_add_inst_new|]; cbn; split; auto; discriminate.
+Qed.
+
+Lemma final_mono g g' j : g_le g g' -> final g j -> final g' j.
+Proof.
+  intros (A & _) (x & Hx & Hd). destruct (A _ _ Hx) as (x' & Hx' & (_ & _ & _ & R)).
+  exists x'. split; auto. rewrite Hd in R. destruct (i_dy x'); cbn in R; auto; lia.
+Qed.
+
+Lemma LInv_other P t g l g' l' es t' l0 :
+  step P t g l = Some (g', l', es) -> LInv g t l -> t' <> t -> LInv g t' l0 -> LInv g' t' l0.
+Proof.
+  intros H HL Hne H0. pose proof (step_mono _ _ _ _ _ _ _ H) as Hle. pose proof (step_keeps_unfinal _ _ _ _ _ _ _ H) as Hk.
+  unfold LInv in *. destruct (at_pc l0) eqn:E0; cbn [creating] in *; auto.
+  all: try (eapply final_mono; eauto; fail).
+  all: destruct H0 as (x & Hx & Ho & Hd);
+       destruct (Hk _ _ Hx Hd) as [(own' & Ec)|(x' & A & B & C)];
+       [rewrite Ec in HL; cbn [creating] in HL; destruct HL as (y & Hy & Hoy & _); exfalso; congruence
+       |exists x'; repeat split; auto; congruence].
+Qed.
+
+(* ---- the invariant ---- *)
+Definition is_create_of (j : nat) (e : nat * opkind * result) : bool :=
+  match e with (_, KCreate, ROk i _) => Nat.eqb i j | _ => false end.
+Definition ncreates (j : nat) (log : list (nat * opkind * result)) : nat := length (filter (is_create_of j) log).
+
+Definition GInv (g : gst) : Prop :=
+  (forall t k j c, In (t, k, ROk j c) (glog g) -> exists x, get_inst g j = Some x /\ i_cfg x = c /\ i_dy x = DFinal) /\
+  (forall j, (ncreates j (glog g) <= 1)%nat).
+
+Definition Inv (c : cfg gst lst) : Prop := GInv (fst c) /\ forall t, LInv (fst c) t (snd c t).
+
+Lemma inv_init progs : Inv (init progs).
+Proof.
+  split; [split|].
+  - intros t k j c [].
+  - intros j. cbn. lia.
+  - intros t. apply plain_LInv. cbn. auto.
+Qed.
+
+Lemma ncreates_in j log : (1 <= ncreates j log)%nat -> exists t c, In (t, KCreate, ROk j c) log.
+Proof.
+  unfold ncreates. induction log as [|e log IH]; cbn; [lia|].
+  destruct (is_create_of j e) eqn:E.
+  - intros _. destruct e as [[t k] r]. destruct k; try discriminate. destruct r; try discriminate.
+    cbn in E. apply Nat.eqb_eq in E. subst. eauto.
+  - intros H. destruct (IH H) as (t & c & Hin). eauto.
+Qed.
+
+Theorem step_inv P t c c' e : Inv c -> step1 (step P) t c = Some (c', e) -> Inv c'.
+Proof.
+  destruct c as [g ls]. intros [[HG1 HG2] HL] Hs. unfold step1 in Hs. cbn [fst snd] in *.
+  destruct (step P t g (ls t)) as [[[g' l'] e']|] eqn:Est; [|discriminate].
+  inversion Hs; subst c' e; clear Hs. unfold Inv. cbn [fst snd].
+  pose proof (step_mono _ _ _ _ _ _ _ Est) as Hle.
+  destruct (step_new_entries _ _ _ _ _ _ _ Est (HL t)) as (lnew & El & Hlen & Hnew).
+  split; [split|].
+  - intros t0 k j c Hin. rewrite El in Hin. apply in_app_or in Hin. destruct Hin as [Hold|Hin].
+    + destruct (HG1 _ _ _ _ Hold) as (x & Hx & Hc & Hd). destruct Hle as (Hle & _).
+      destruct (Hle _ _ Hx) as (x' & Hx' & (Ec & _ & _ & R)). exists x'. repeat split; auto; try congruence.
+      rewrite Hd in R. destruct (i_dy x'); cbn in R; auto; lia.
+    + destruct (Hnew _ Hin I) as [(j' & c' & x' & Ee & A & B & C)|(i & own & c' & x' & Ee & _ & A & B & C)];
+        inversion Ee; subst; eauto.
+  - intros j. rewrite El. unfold ncreates. rewrite filter_app, app_length. fold (ncreates j (glog g)).
+    destruct lnew as [|e0 [|? ?]]; cbn [filter length]; [specialize (HG2 j); lia| |cbn in Hlen; lia].
+    destruct (is_create_of j e0) eqn:Ec; cbn [length]; [|specialize (HG2 j); lia].
+    (* the new entry is a successful create of j: j was not final before, hence never created before *)
+    assert (Hoke : ok_entry e0) by (destruct e0 as [[? k] r]; destruct k; try discriminate; destruct r; try discriminate; exact I).
+    destruct (Nat.eq_dec (ncreates j (glog g)) 0) as [Ez|Enz]; [lia|exfalso].
+    destruct (ncreates_in j (glog g)) as (t1 & c1 & Hin1); [lia|].
+    destruct (HG1 _ _ _ _ Hin1) as (x & Hx & _ & Hd).
+    destruct (Hnew e0 (or_introl eq_refl) Hoke) as [(j' & c' & x' & Ee & _)|(i & own & c' & x' & Ee & Epc & _)].
+    + subst e0. discriminate.
+    + subst e0. cbn in Ec. apply Nat.eqb_eq in Ec. subst i.
+      specialize (HL t). unfold LInv in HL. rewrite Epc in HL. cbn in HL. destruct HL as (y & Hy & _ & Hny). congruence.
+  - intros t0. destruct (Nat.eq_dec t0 t) as [->|Hne].
+    + rewrite upd_l_same. eapply step_LInv_own; eauto.
+    + rewrite upd_l_other by auto. eapply LInv_other; eauto.
+Qed.
+
+Theorem inv_reachable_svc P progs c : reachable (step P) (init progs) c -> Inv c.
+Proof.
+  apply (inv_reachable gst lst ev (step P) Inv).
+  - apply inv_init.
+  - intros t c0 c' e HI Hs. eapply step_inv; eauto.
+Qed.
+
+(* ---- consequences for every reachable state ---- *)
+Theorem open_complete P progs g ls t k j c :
+  reachable (step P) (init progs) (g, ls) -> In (t, k, ROk j c) (glog g) ->
+  exists x, get_inst g j = Some x /\ i_cfg x = c /\ i_dy x = DFinal.
+Proof. intros Hr Hin. destruct (inv_reachable_svc _ _ _ Hr) as [[A _] _]. cbn [fst] in A. eauto. Qed.
+
+Theorem ok_same_settings P progs g ls t1 k1 t2 k2 j c1 c2 :
+  reachable (step P) (init progs) (g, ls) ->
+  In (t1, k1, ROk j c1) (glog g) -> In (t2, k2, ROk j c2) (glog g) -> c1 = c2.
+Proof.
+  intros Hr H1 H2. destruct (open_complete _ _ _ _ _ _ _ _ Hr H1) as (x & Hx & <- & _).
+  destruct (open_complete _ _ _ _ _ _ _ _ Hr H2) as (y & Hy & <- & _). congruence.
+Qed.
+
+Theorem single_creator P progs g ls j :
+  reachable (step P) (init progs) (g, ls) -> (ncreates j (glog g) <= 1)%nat.
+Proof. intros Hr. destruct (inv_reachable_svc _ _ _ Hr) as [[_ B] _]. cbn [fst] in B. auto. Qed.
+
+(* a creator that is between create_locked and the final permissions owns an instance nobody has obtained *)
+Theorem mid_creation_not_obtained P progs g ls t i t0 k c :
+  reachable (step P) (init progs) (g, ls) -> creating (at_pc (ls t)) = Some i -> ~ In (t0, k, ROk i c) (glog g).
+Proof.
+  intros Hr Hc Hin. destruct (inv_reachable_svc _ _ _ Hr) as [[A _] B]. cbn [fst snd] in *.
+  destruct (A _ _ _ _ Hin) as (x & Hx & _ & Hd). specialize (B t). unfold LInv in B.
+  destruct (at_pc (ls t)); cbn [creating] in *; try discriminate; inversion Hc; subst;
+    destruct B as (y & Hy & _ & Hn); congruence.
+Qed.
+
+(* ---- verification failure touches nothing (step level) ---- *)
+Definition fs_part (g : gst) := (insts g, cur g, tags g).
+
+Definition avail_pc (p : pc) : Prop :=
+  match p with PAccess | POpen1 | PFstat1 _ | POpen2 | PFstat2 _ _ | PRead _ => True | _ => False end.
+
+Lemma quiet_fs g g' l' : quiet g g' l' -> insts g' = insts g.
+Proof. intros (A & _). exact A. Qed.
+
+Lemma helper_fs_call_fails P t g l k e es g' l' es' : call_fails P t g l k e es = Some (g', l', es') -> fs_part g' = fs_part g.
+Proof.
+  unfold call_fails, ooc_tail, op_done, op_done_k, fs_part.
+  destruct (in_ooc l); [|intros H; inversion H; subst; reflexivity].
+  destruct k; destruct e; try destruct (create_precheck _ _); try destruct (Nat.leb _ _); intros H; inversion H; subst; reflexivity.
+Qed.
+
+Lemma helper_fs_wait_retry P t g l es g' l' es' : wait_retry P t g l es = Some (g', l', es') -> fs_part g' = fs_part g.
+Proof.
+  unfold wait_retry. destruct (Nat.leb _ _); intros H; [eapply helper_fs_call_fails; eauto|inversion H; subst; reflexivity].
+Qed.
+
+(* is_service_available and verify_service_configuration only look *)
+Theorem avail_phase_reads_only P t g l g' l' es :
+  step P t g l = Some (g', l', es) -> avail_pc (at_pc l) -> fs_part g' = fs_part g.
+Proof.
+  unfold step, with_inst, avail_hangs, avail_none. intros H Ha.
+  destruct (at_pc l) eqn:Epc; cbn in Ha; try contradiction.
+  all: step_cases H.
+  all: try (inversion H; subst; reflexivity).
+  all: try (eapply helper_fs_call_fails; eassumption).
+  all: try (eapply helper_fs_wait_retry; eassumption).
+Qed.
+
+(* ... and an open whose requirements are not met returns the error of the first failing requirement there *)
+Theorem incompatible_open_returns P t g l j x e :
+  at_pc l = PRead j -> get_inst g j = Some x -> cur_kind l = KOpen -> in_ooc l = None ->
+  open_check (i_cfg x) (the_req l) KOpen = Some e ->
+  exists g' l', step P t g l = Some (g', l', [ECall CRead BStatic XOk; ERet (RErr SOpen e)]) /\
+    fs_part g' = fs_part g /\ rets l' = rets l ++ [RErr SOpen e] /\ handles l' = handles l /\ at_pc l' = Idle.
+Proof.
+  intros Epc Ex Ek Eo Ec. unfold step, with_inst. rewrite Epc, Ex, Ek. unfold public_kind. rewrite Eo, Ek, Ec.
+  unfold call_fails. rewrite Eo. unfold op_done, op_done_k. rewrite Ek. eexists _, _. split; [reflexivity|]. cbn. auto.
+Qed.
+
+(* ---- marked for destruction: a locked registry refuses every later registration ---- *)
+Theorem locked_registry_refuses P t g l j own x :
+  at_pc l = OReg j own -> get_inst g j = Some x -> nreg l = O -> i_locked x = true -> in_ooc l = None ->
+  exists g' l' es, step P t g l = Some (g', l', es) /\ insts g' = insts g /\
+    (own = false -> rets l' = rets l ++ [RErr SOpen IsMarkedForDestruction]) /\
+    (own = true -> at_pc l' = PRmTag (KRet KOpen IsMarkedForDestruction)).
+Proof.
+  intros Epc Ex En El Eo. unfold step, with_inst. rewrite Epc, Ex, En, El. cbn [Nat.ltb Nat.leb].
+  unfold fail_with_tag. destruct own.
+  - eexists _, _, _. split; [reflexivity|]. cbn. split; auto. split; [discriminate|auto].
+  - unfold run_cont, call_fails. rewrite Eo. unfold op_done, op_done_k. eexists _, _, _. split; [reflexivity|]. cbn. split; auto.
+    split; auto. discriminate.
 Qed.
